@@ -204,6 +204,25 @@ def _check_table(acc, case, spell, gcol, hcol, fcol, f2col):
                 fail("pcDelta_grouped_cross/condensed-edges", {"pairs": pairs, "rows": exp}, r if raised(r) else {"pairs": [tuple(x) for x in r.index], "rows": _vals(r).tolist()})
                 return
             acc.ok()
+        if len(names) >= 2:
+            # an insertion/deletion-asymmetric metric: the row labelled (g, h) is pcDelta(g, h), not pcDelta(h, g)
+            from pyrepseq.metric import WeightedLevenshtein
+            from mc.refmodel import ref_wlev
+            r = acc.call(pyrepseq.pcDelta_grouped_cross, df, by, "seq", condensed=True, bins=EDGES, normalize=False, metric=WeightedLevenshtein(2, 1, 1))
+            pairs = list(itertools.combinations(names, 2))
+            exp = [ref_hist([ref_wlev(fcol[i], fcol[j], 2, 1, 1) for i in gs[a] for j in gs[b]], EDGES) for a, b in pairs]
+            if not _cmp_matrix(r, exp):
+                fail("pcDelta_grouped_cross/condensed-asymmetric-metric", {"pairs": pairs, "rows": exp}, r if raised(r) else _vals(r).tolist())
+                return
+            acc.ok()
+            # bins=0 with maxseqs: pcDelta(g, h, bins=0, maxseqs=m) is the exact pc(g, h) (no sub-sampling in the coincidence form)
+            for m in (1, 2):
+                r = acc.call(pyrepseq.pcDelta_grouped_cross, df, by, "seq", condensed=True, bins=0, maxseqs=m)
+                exp = [[float(ref_pc2([fcol[x] for x in gs[a]], [fcol[x] for x in gs[b]]))] for a, b in pairs]
+                if not _cmp_matrix(r, exp):
+                    fail("pcDelta_grouped_cross/bins=0-with-maxseqs", {"pairs": pairs, "values": exp}, r if raised(r) else _vals(r).tolist(), note="maxseqs=%d" % m)
+                    return
+                acc.ok()
         # bins = 0 coincidence form
         acc.cls("bins=0-form")
         within = [float(ref_pc([fcol[i] for i in gs[k]])) if len(gs[k]) > 1 else NAN for k in names]
